@@ -154,8 +154,15 @@ func RunOne(t *testing.T, cfg RunCfg, out string) {
 		s := &Sim{cfg: cfg, c: c, probes: map[string]int{}, faults: map[string]int{}, stateSet: map[uint64]bool{}, confirmDelay: map[string]int{}, graveyard: map[string]*QSpec{}}
 		s.shim = NewShim(c, cfg.Seed)
 		s.shim.minimal = cfg.Race
+		if cfg.Faults["predicate_flap"] {
+			s.shim.PredFlapP = 0.12
+		}
+		if cfg.Faults["callback_error"] {
+			s.shim.CBErrorP = 0.05
+		}
 		s.rng = NewRng(cfg.Seed, "ops")
 		s.frng = NewRng(cfg.Seed, "faults")
+		s.mrng = NewRng(cfg.Seed, "malformed")
 		pf, ok := profiles[cfg.Profile]
 		if !ok {
 			pf = profiles["base"]
@@ -176,6 +183,7 @@ func RunOne(t *testing.T, cfg RunCfg, out string) {
 		}
 		s.conf = s.world.Conf.Clone()
 		s.simStart = time.Now()
+		s.shim.start = s.simStart
 		drv := c.spawn(func() { s.drive() }, true)
 		c.loop(drv)
 		// collect
@@ -335,6 +343,14 @@ func (s *Sim) drive() {
 				break
 			}
 			s.playOp(op)
+			if op.Kind == "timed" {
+				// let the clock reach the deadline (and a little more)
+				q := int64(1000)
+				if s.rng.Bool(0.5) {
+					q = op.Ms + 5000
+				}
+				s.doStep(Op{Kind: "advance", Ms: op.Ms + int64(s.rng.Range(0, 3000)), Quantum: q})
+			}
 			s.handleObligations()
 			// a small seeded pause between operations so that submission instants differ (and sometimes do not)
 			if s.rng.Bool(0.5) {
@@ -488,7 +504,13 @@ func (s *Sim) checkDrained() {
 			s.violate("C03", "leak-node-occupied", "", "after every foreign allocation was removed node %s still reports occupied %s", nid, n.Occupied)
 		}
 		if len(n.Reserved) != 0 {
-			s.violate("C09", "leak-reservation", "node", "after everything was removed node %s still carries reservations %v", nid, n.Reserved)
+			detail := "node"
+			for _, app := range n.Reserved {
+				if d := p.Done[app]; d != nil && (d.State == "Failed" || d.State == "Failing") {
+					detail = "node-app-Failed"
+				}
+			}
+			s.violate("C09", "leak-reservation", detail, "after everything was removed node %s still carries reservations %v", nid, n.Reserved)
 		}
 	}
 	if len(p.Apps) != 0 {
@@ -502,7 +524,6 @@ func (s *Sim) checkDrained() {
 }
 
 func (s *Sim) finish() {
-	if s.sc != nil {
-		s.sc.StopAll()
-	}
+	// the process exits right after the result is written: the services are not stopped (a stop after a violated
+	// invariant can crash before the result is out)
 }
